@@ -36,3 +36,26 @@ PROPS["C11"].update(
 # properties not claimed yet (filled while the framework is being built)
 NOT_APPLICABLE = {("C%02d" % i): "monitor not built yet (work in progress; see DESIGN.md for the plan)" for i in range(1, 21)}
 HOOK_COMMITS = []
+
+PROPS["C12"] = dict(
+    race=True,
+    shards={"quick": 8, "thorough": 16},
+    race_is_violation=True,
+    level="exploration",
+    design_ref="DESIGN.md §4 C12",
+    technique="runtime monitor: round-trip / tamper oracles, in-memory reference index for the find workflow, race detector on concurrent callers",
+    rule=("aes-roundtrip: seeded (payload length 0..4096, passphrase length 0..128) pairs incl. edge lengths; tamper: for seeded "
+          "ciphertexts EVERY truncation length, a bit flip at EVERY byte, appended bytes and nonce lengths 0..24 through "
+          "DecryptValueKey/DecryptMetadata/DecryptAES; valuekey: peer IDs of all key types (identity- and sha256-hashed) x context "
+          "ids 0..64 incl. ones starting with a peer-ID; second-hash; concurrent callers under -race; find: small plaintext indexes "
+          "loaded into an in-memory DHStoreAPI only through dhash functions, metadata-only and with pcache over a local HTTP source, "
+          "with hostile extra value keys / garbled metadata. distinct_nontrivial = distinct (payload len, passphrase len), "
+          "(key type, ctx len), (hash code, len) and find-configuration tuples."),
+    floors={"quick": {"truncations": 5000, "bitflips": 5000, "find_nonempty_results": 100, "find_hostile_stores": 20, "peerkind_identity": 100, "peerkind_sha256": 100},
+            "thorough": {"truncations": 200000, "bitflips": 200000, "find_nonempty_results": 4000, "find_hostile_stores": 1000}},
+    level_text=("Exploration: every decryption entry point is driven with every truncation and a flip at every byte of real "
+                "ciphertexts and must fail closed without panicking; round trips, determinism and the value-key split are checked "
+                "against the inputs; the reader-privacy find is compared with the plaintext index it was loaded from."),
+    level_note="Trusted: Go's AES-GCM; the in-memory DHStoreAPI and HTTP provider source written for the harness.",
+    assumptions=["race reports in go-libipni frames count as violations (deterministic, comparable encryption must be safe for concurrent callers)"],
+)
